@@ -693,3 +693,39 @@ package gtab
 //@     invariant forall i2 int :: 0 <= i2 && i2 < len(res.Rules) && i2 != i ==> isnil(res.Rules[i2]) || (allocated(res.Rules[i2]) && ref(res.Rules[i2]) != ref(res.Rules[i]))
 //@     invariant forall i2 int :: forall j2 int :: 0 <= i2 && i2 < len(res.Rules) && i2 != i && 0 <= j2 && j2 < len(res.Rules[i2]) ==> res.Rules[i2][j2] != nil
 //@     invariant forall j2 int :: 0 <= j2 && j2 < j ==> res.Rules[i][j2] != nil
+
+// SeqContext2.apply (class-based sequence context): satisfies the Subtable
+// interface contract - result in [-1, len], every matched position lies inside
+// [a, b), the pushed stack entry keeps the stack invariant - and on a match
+// the matched position list is handed over to the stack entry: the Context's
+// scratch slice no longer shares its array (a later match must not overwrite
+// the positions of this one).
+//@ func (l *SeqContext2) apply(ctx *Context, a int, b int) (next int)   props: C07 C06
+//@   requires l != nil && ctx != nil && 0 <= a && a < b && b <= len(ctx.seq) && stackinv(ctx) && keepOK(ctx) && llOK(ctx)
+//@   requires forall g uint16 :: l.Input[g] < len(l.Rules)
+//@   requires forall i int :: 0 <= i && i < len(l.Rules) ==> forall j int :: 0 <= j && j < len(l.Rules[i]) ==> l.Rules[i][j] != nil
+//@   ensures next >= -1 && next <= len(ctx.seq) && stackinv(ctx) && len(ctx.seq) == old(len(ctx.seq))
+//@   ensures next < 0 ==> len(ctx.stack) == old(len(ctx.stack))
+//@   ensures next >= 0 ==> a < next && next <= b && len(ctx.stack) == old(len(ctx.stack)) + 1
+//@   opt assume_make=1
+//@   modifies ctx.scratch, ctx.stack, ctx.stack[*], ctx.scratch[*], all(nested), allelems(int), allelems(*nested)
+//@   loop 0
+//@     invariant stackinv(ctx) && len(ctx.stack) == old(len(ctx.stack)) && len(ctx.seq) == old(len(ctx.seq)) && ref(seq) == ref(ctx.seq) && off(seq) == off(ctx.seq) && len(seq) == len(ctx.seq) && b <= len(seq) && ctx.scratch == old(ctx.scratch) && keep == ctx.keep
+//@     invariant isnil(matchPos) || ref(matchPos) == ref(ctx.scratch) || fresh(matchPos)
+//@     invariant forall k int :: 0 <= k && k < len(ctx.stack) ==> !fresh(ctx.stack[k].InputPos)
+//@   loop 1
+//@     invariant stackinv(ctx) && len(ctx.stack) == old(len(ctx.stack)) && len(ctx.seq) == old(len(ctx.seq)) && ref(seq) == ref(ctx.seq) && off(seq) == off(ctx.seq) && len(seq) == len(ctx.seq) && b <= len(seq) && ctx.scratch == old(ctx.scratch) && keep == ctx.keep
+//@     invariant ref(matchPos) == ref(ctx.scratch) || fresh(matchPos)
+//@     invariant forall k int :: 0 <= k && k < len(ctx.stack) ==> !fresh(ctx.stack[k].InputPos)
+//@     invariant a <= p && p < b && glyphsNeeded >= 0 && glyphsNeeded == len(rule.Input) - iter && len(matchPos) >= 1 && rule != nil
+//@     invariant forall k int :: 0 <= k && k < len(matchPos) ==> a <= matchPos[k] && matchPos[k] <= p
+//@   loop 2
+//@     invariant a < p && p <= b && glyphsNeeded >= 0 && b <= len(seq) && len(seq) == len(ctx.seq) && ref(seq) == ref(ctx.seq) && off(seq) == off(ctx.seq) && len(ctx.seq) == old(len(ctx.seq)) && keep == ctx.keep
+//@     invariant forall k int :: 0 <= k && k < len(matchPos) ==> a <= matchPos[k] && matchPos[k] < p
+//@     decreases b - p
+//@   loop 3
+//@     invariant a < p && p <= b && b <= len(seq) && len(seq) == len(ctx.seq) && ref(seq) == ref(ctx.seq) && off(seq) == off(ctx.seq) && len(ctx.seq) == old(len(ctx.seq)) && keep == ctx.keep
+//@     invariant forall k int :: 0 <= k && k < len(matchPos) ==> a <= matchPos[k] && matchPos[k] < p
+//@     invariant len(matchPos) >= 1 && stackinv(ctx) && len(ctx.stack) == old(len(ctx.stack)) && (ref(matchPos) == ref(ctx.scratch) || fresh(matchPos)) && ctx.scratch == old(ctx.scratch) && rule != nil
+//@     invariant forall k int :: 0 <= k && k < len(ctx.stack) ==> !fresh(ctx.stack[k].InputPos)
+//@     decreases b - p
